@@ -247,6 +247,20 @@ func streamHview() {
 			a.cfg.Validity, b.cfg.Validity = Validity{Duration: "3y"}, Validity{Duration: "4y"}
 			emitPair(tag+"-duration-without-from", a, b, true)
 		}
+		// a validity inherited from the profile: its end date / duration is certificate relevant with and without a start date
+		{
+			mk := func(v Validity) hside {
+				s := base
+				s.cfg.Validity = Validity{}
+				s.prof = &Profile{Name: "pv", Validity: v}
+				return s
+			}
+			emitPair(tag+"-inherited-duration", mk(Validity{Duration: "2y"}), mk(Validity{Duration: "3y"}), true)
+			emitPair(tag+"-inherited-until", mk(Validity{Until: "2051-01-01"}), mk(Validity{Until: "2052-02-02"}), true)
+			emitPair(tag+"-inherited-until-to-duration", mk(Validity{Until: "2051-01-01"}), mk(Validity{Duration: "9y"}), true)
+			emitPair(tag+"-inherited-from-duration", mk(Validity{From: "2030-01-01", Duration: "2y"}), mk(Validity{From: "2030-01-01", Duration: "3y"}), true)
+			emitPair(tag+"-inherited-same", mk(Validity{Duration: "2y"}), mk(Validity{Duration: "2y"}), false)
+		}
 		// a second extension with an OID that is already present, and an edit of the first of two equal-OID extensions
 		edit("ext-duplicate-oid", func(s *hside) bool {
 			s.cfg.Exts = append(s.cfg.Exts, Ext{Kind: "custom", Oid: "1.2.3.99", Raw: "!null", Crit: -1}, Ext{Kind: "custom", Oid: "1.2.3.99", Raw: "!empty", Crit: -1})
